@@ -76,13 +76,14 @@ impl Http2FingerprintExtractor {
 
         self.buffer.extend_from_slice(data);
 
-        // Skip HTTP/2 connection preface
-        let start_offset =
-            if self.parsed_offset == 0 && self.buffer.starts_with(HTTP2_CONNECTION_PREFACE) {
-                HTTP2_CONNECTION_PREFACE.len()
-            } else {
-                self.parsed_offset
-            };
+        // Skip HTTP/2 connection preface. Frames are always parsed from the start of the
+        // stream: the fingerprint is built from every frame received so far (a PRIORITY or
+        // WINDOW_UPDATE frame may have been completed by an earlier chunk than SETTINGS).
+        let start_offset = if self.buffer.starts_with(HTTP2_CONNECTION_PREFACE) {
+            HTTP2_CONNECTION_PREFACE.len()
+        } else {
+            0
+        };
 
         let frame_data = &self.buffer[start_offset..];
 
